@@ -170,9 +170,13 @@ func (c *Ctx) Finish(verifDir string, controls []controlExpect, start time.Time,
 		}
 	}
 	for rule, floor := range c.floors {
-		if c.counts[rule] < floor {
+		// the alarm threshold is half of what was confirmed on the pinned tree (never below one site):
+		// merging duplicated code legitimately halves the number of sites, a rule that has gone blind
+		// loses (nearly) all of them
+		need := (floor + 1) / 2
+		if c.counts[rule] < need {
 			c.add("FRAMEWORK.FLOOR", rule, "-", Undecided,
-				fmt.Sprintf("rule matched %d real sites, fewer than the %d confirmed by hand: sites have vanished from the checker's view", c.counts[rule], floor), "")
+				fmt.Sprintf("rule matched %d real sites, fewer than half of the %d confirmed by hand (threshold %d): sites have vanished from the checker's view", c.counts[rule], floor, need), "")
 		}
 	}
 	// classify
